@@ -255,14 +255,29 @@ class Design:
             if r is None or r[0] != "type":
                 if d.type.name.lower() != "string":
                     raise Illegal("undeclared", f"attribute type {d.type.name}", d.line)
-            scope.declare(d.name, ("attribute", d.name), d)
+            scope.declare(d.name, ("attribute", d.name, d.type.name.lower()), d)
         elif isinstance(d, P.AttrSpec):
-            r = scope.lookup(d.name.lower())
-            if r is None or r[0] != "attribute":
+            ra = scope.lookup(d.name.lower())
+            if ra is None or ra[0] != "attribute":
                 raise Illegal("undeclared", f"attribute {d.name!r} is not declared", d.line)
             r = scope.lookup(d.target.lower())
             if r is None:
                 raise Illegal("undeclared", f"attribute target {d.target!r} is not declared", d.line)
+            # the entity class of the specification must be the class of the named object, and the object must be
+            # declared in the same declarative part
+            cls_of = {"signal": "signal", "port": "signal", "variable": "variable", "constant": "constant", "type": "type", "func": "function", "label": "label"}.get(r[0])
+            if cls_of is not None and d.cls != cls_of:
+                raise Illegal("attribute", f"attribute {d.name} of {d.target}: entity class {d.cls!r} but {d.target} is a {cls_of}", d.line)
+            if d.target.lower() not in scope.d and r[0] != "port":
+                raise Illegal("attribute", f"attribute {d.name} of {d.target}: {d.target} is not declared in this declarative part", d.line)
+            # value of the attribute's type (string / integer / boolean literals as emitted)
+            at = ra[2] if len(ra) > 2 else None
+            v = d.value
+            while isinstance(v, P.Paren):
+                v = v.expr
+            kind = "string" if isinstance(v, P.StrLit) else ("integer" if isinstance(v, P.IntLit) else None)
+            if at in ("string", "integer") and kind is not None and kind != at:
+                raise Illegal("type", f"attribute {d.name} of {d.target}: value of kind {kind} for attribute type {at}", d.line)
         else:
             raise Unsupported(type(d).__name__)
 
@@ -272,8 +287,18 @@ Scope_builtin.d = builtin_scope()
 
 
 class Library:
+    def block_of(self, label):
+        """line of the `-- CONCURRENT BLOCK` marker that precedes an anonymous concurrent statement (label '<kind@LINE#n>')"""
+        import bisect
+        m = re.search(r"@(\d+)", label or "")
+        if not m or not self.block_marks:
+            return None
+        k = bisect.bisect_right(self.block_marks, int(m.group(1))) - 1
+        return self.block_marks[k] if k >= 0 else None
+
     def __init__(self, text: str):
         self.text = text
+        self.block_marks = [i + 1 for i, ln in enumerate(text.splitlines()) if ln.strip().startswith("-- CONCURRENT BLOCK")]
         units = P.parse(text)
         self.designs: dict[str, Design] = {}
         self.order = []
@@ -536,6 +561,11 @@ class Sim:
                         if ds[i][0].startswith("<") and ds[j][0].startswith("<") and ds[i][0].split("@")[0] in ("<concurrent", "<select") and ds[j][0].split("@")[0] in ("<concurrent", "<select"):
                             if ds[i][2][1] is not None and ds[i][2] == ds[j][2]:
                                 continue  # textually identical concurrent statement repeated: both drivers carry the same 0/1 value
+                            bi, bj = self.lib.block_of(ds[i][0]), self.lib.block_of(ds[j][0])
+                            if bi is not None and bj is not None and bi != bj:
+                                # the emitted text marks every concurrent context with a comment line: statements of two
+                                # different contexts drive the same signal element
+                                raise Illegal("multiple-drivers", f"signal {s} is driven from two concurrent blocks ({ds[i][0]} in block at line {bi}, {ds[j][0]} in block at line {bj})")
                             # two anonymous concurrent statements: legal for resolved types (value = resolution
                             # function); the two-valued model cannot represent a conflict
                             raise Unsupported(f"overlapping concurrent drivers on {s} (resolution function)")
